@@ -236,6 +236,19 @@ def _dotted(node):
     return None
 
 
+def _all_dropped(body):
+    for st in body:
+        if isinstance(st, ast.Pass):
+            continue
+        if isinstance(st, ast.Expr) and isinstance(st.value, ast.Call):
+            d = _dotted(st.value.func)
+            if d is not None and (d.startswith(DROPPED_PREFIXES) or
+                                  d in DROPPED_NAMES or d in DROPPED_ATTRS):
+                continue
+        return False
+    return True
+
+
 class LoopSpec:
     """Invariant for a loop, keyed by (function qualname, loop ordinal)."""
 
@@ -458,6 +471,11 @@ class Engine:
         if t is ast.Return:
             raise _Return(ev(s.value) if s.value is not None else None)
         if t is ast.If:
+            if not s.orelse and _all_dropped(s.body):
+                # body has no effect in the engine: evaluate the test (it
+                # may raise) but do not fork on it
+                self.truth_sym(ev(s.test))
+                return
             if self.truth(ev(s.test)):
                 yield from self.exec_block(s.body, env, mod, clsctx)
             else:
@@ -1083,6 +1101,8 @@ class Engine:
             raise
         except (RecursionError, MemoryError):
             raise
+        except (SystemExit, KeyboardInterrupt) as ex:
+            raise PyRaise(ex)
         except Exception as ex:  # noqa
             raise PyRaise(ex)
 
